@@ -37,7 +37,7 @@ var rec = ev.New("C05", "c05.containment",
 	"(property, value) pairs go through safehtml.SanitizeCSS / templ.SanitizeCSS and through compiled fixtures (css component rendered into <style>, style={map}, style={templ.KV}, style={[]any}); "+
 		"the emitted text embedded as `.c{N:V;}.z{color:blue}` (and the decoded style attribute + `color:blue`) is parsed by an independent CSS Syntax 3 tokenizer/parser: exactly the author's rules and one declaration named N, "+
 		"no top-level ';', block, comment, bad-string, bad-url, at-keyword, non-url function, url with a scheme outside http/https/mailto, no `</style`; N and V are the input (N lower-cased) or the innocuous constants. "+
-		"Exhaustive: value sequences of <=L tokens (L=3 quick, 4 thorough) over a 31-token CSS-adversarial alphabet x property classes; random: longer values, url()/quoted shapes, generated names. "+
+		"Exhaustive: value sequences of <=L tokens (L=3 quick, 4 thorough) over a 33-token CSS-adversarial alphabet (incl. the Unicode spaces U+0085 / U+00A0) x property classes; random: longer values, url()/quoted shapes, generated names. "+
 		"Non-trivial = value or name contains a CSS-significant character; enumerated cases distinct by construction, random by (name,value)")
 
 var ownIdent = regexp.MustCompile(`^[-a-zA-Z]+$`)
@@ -309,7 +309,7 @@ func nt(c Case) bool {
 }
 
 var valueTokens = []string{";", ":", "{", "}", "(", ")", "\"", "'", "\\", "/", "*", "/*", "*/", "<", ">", ",", "@", "!important", "a", "1px", " ", "\n",
-	"url(", "url(\"", "url(a)", "url()", "expression(", "http://h/p", "javascript:x", "</style>", "-->"}
+	"url(", "url(\"", "url(a)", "url()", "expression(", "http://h/p", "javascript:x", "</style>", "-->", "\u0085", "\u00a0"}
 
 var propNames = []string{"background-image", "font-family", "display", "color", "width", "z-index", "margin", "-webkit-x", "COLOR", "Background-Image",
 	"co lor", "a:b", "x;y", "color}", "", "color/**/", "font-family "}
